@@ -201,6 +201,22 @@ pub fn run(case: &Value) -> Value {
                 Err(e) => json!({"ok": false, "doc_err": format!("{:?}", e)}),
             }
         }
+        "rebind" => {
+            // count(//p:i) with p bound to u1 and then re-bound to u2, against a fresh context with p bound to u2
+            match xml_dom::XmlDocument::from_raw(input) {
+                Ok((_, doc)) => {
+                    let mut c1 = xml_xpath::eval::model::Context::default();
+                    c1.add_ns(Some("p"), "u1");
+                    c1.add_ns(Some("p"), "u2");
+                    let mut c2 = xml_xpath::eval::model::Context::default();
+                    c2.add_ns(Some("p"), "u2");
+                    let a = xml_xpath::query(doc.clone(), "count(//p:i)", &mut c1).map(|v| format!("{}", v)).unwrap_or_else(|e| format!("{:?}", e));
+                    let b = xml_xpath::query(doc.clone(), "count(//p:i)", &mut c2).map(|v| format!("{}", v)).unwrap_or_else(|e| format!("{:?}", e));
+                    json!({"ok": true, "rebound": a, "fresh": b})
+                }
+                Err(e) => json!({"ok": false, "doc_err": format!("{:?}", e)}),
+            }
+        }
         "mutate" => mutate(case),
         "chardata" => chardata(case),
         "create" => create(case),
